@@ -17,6 +17,24 @@ CHECKS = {
  "C04": dict(cat="model_checking", tech="stateless model checking of the real code (schedules, step monitor) + exhaustive fault placement over request sequences, exact quiescence detection",
    text="Safety is a monitor evaluated after every scheduling step of every explored schedule; liveness is decided exactly at scheduler-detected quiescence for every request sequence of length 1-2 over 9 outcome classes x every engine fault kind on every commit.",
    ref="4/C04"),
+ "C03": dict(cat="model_checking", tech="explicit-state BFS over write histories on the real backend with a versioned-map reference model; every read at every revision compared after every transition",
+   text="All histories up to the stated depth over a 10-operation-per-key alphabet on prefix-related key sets (states de-duplicated on the rank-normalised model), each transition executed on a fresh real backend; every point/range/limited/count read at every revision is compared with the model and with the previous answer.",
+   ref="4/C03"),
+ "C07": dict(cat="fault_enumeration", tech="explicit-state BFS over write+compaction histories with exhaustive placement of deletion faults / compactor death, plus preemption-bounded schedule exploration of compactor vs writers vs reader",
+   text="Every compaction of every explored history is also run with each of its first 5 deletions failing (2 error kinds) and with the compactor dying after i deletions; reads at or above the floor, later writes and out-of-range records are compared with the model after every step; a compactor thread is explored against writers/readers under all schedules up to the bound.",
+   ref="4/C07"),
+ "C08": dict(cat="model_checking", tech="explicit-state BFS over write/compaction request sequences on the real backend; floor oracle at every revision after every step",
+   text="All sequences up to the stated depth of writes and compaction requests (zero, every revision, above current; hence every increasing/decreasing/repeated order), de-duplicated on model+storage state; after every step List, limited List and streamed range at every revision must be refused below the floor and served above, and the stored record must equal the floor.",
+   ref="4/C08"),
+ "C10": dict(cat="exploration", tech="bounded-exhaustive input enumeration of the pure encoding functions (all keys up to length 4 over a 6-7 byte alphabet x 9 revisions; all pairs, all triples)",
+   text="The space of keys/revisions/bounds is finite and enumerated completely: round trip, order for all pairs, range and prefix bounds for all triples.",
+   ref="4/C10", note="Trusted: bytes between the sampled alphabet bytes behave like their neighbours (the functions only copy and compare bytes)."),
+ "C11": dict(cat="model_checking", tech="explicit-state search of each storage adapter against a sorted-map reference model (27 states x all batches x all iterator shapes)",
+   text="From each of the 27 states every single-operation batch (thorough: every ordered two-operation batch), Get/Del/DelCurrent (fresh and stale iterator) and every iterator shape is executed on memkv, badger, tikv-mock and each behind the metrics wrapper; result class and full contents are compared with the model after every transition.",
+   ref="4/C11"),
+ "C12": dict(cat="model_checking", tech="explicit-state BFS over sequential request histories, each executed on four engines; pairwise transcript comparison (differential oracle)",
+   text="Every history up to the stated depth over a 15-operation alphabet is executed on memkv, badger, tikv-mock and metrics(badger); success flags, relative revisions, failure-branch values, reads at every revision and watch events must agree.",
+   ref="4/C12"),
 }
 
 NOT_YET = {}
